@@ -299,7 +299,7 @@ def Gen.interp {P S O} (g : Gen P S O) (spec : Nat → P) (l : Lin) : S :=
 
 inductive Ev where
   | app (src : Lin) (trials delay : Nat)      -- queue.append(factory, trials, delays): deep copy of the source
-  | appw (w trials delay : Nat)               -- queue.append(ndarray, …)
+  | appw (w trials delay : Nat) (overwritten : Bool)   -- queue.append(ndarray, …): the array's value then
   | pop (n : Nat)
   deriving DecidableEq, Repr
 
@@ -312,9 +312,10 @@ structure World where
   objs : List Obj
   nspecs : Nat
   narrays : Nat
+  written : List Nat          -- parameter arrays the caller has overwritten (they are the caller's own)
   deriving Repr
 
-def World.init : World := { objs := [], nspecs := 0, narrays := 0 }
+def World.init : World := { objs := [], nspecs := 0, narrays := 0, written := [] }
 
 inductive WOp where
   | new (spec : Nat)
@@ -329,6 +330,7 @@ inductive WOp where
   | seed (x : Nat)                 -- np.random.seed(x)
   | rand (n : Nat)                 -- draws on the global generator
   | scribble                       -- caller overwrites every returned chunk
+  | wwrite (a : Nat)               -- caller overwrites an array it had appended to a queue
   deriving Repr
 
 def queueKinds : List String := ["fifo", "inter", "blocked", "brand"]
@@ -376,7 +378,8 @@ def wstep (w : World) : WOp → World × Out
   | .appendw q a t d =>
     match w.objs[q]? with
     | some (.queue k p e) =>
-      if a < w.narrays then ({ w with objs := w.objs.set q (.queue k p (e ++ [.appw a t d])) }, .ok)
+      if a < w.narrays then
+        ({ w with objs := w.objs.set q (.queue k p (e ++ [.appw a t d (w.written.contains a)])) }, .ok)
       else (w, .bad)
     | _ => (w, .bad)
   | .pop q n =>
@@ -387,6 +390,7 @@ def wstep (w : World) : WOp → World × Out
   | .seed _ => (w, .ok)
   | .rand _ => (w, .ok)
   | .scribble => (w, .ok)
+  | .wwrite a => if a < w.narrays then ({ w with written := a :: w.written }, .ok) else (w, .bad)
 
 /-- The object an operation acts on (creation and noise operations act on none). -/
 def WOp.target : WOp → Option Nat
